@@ -313,21 +313,7 @@ theorem step_wf (t : ITier Int) (hwf : t.WF) (hn : NoClose t.es) (op : Op) (hop 
       | ok es' =>
         rw [hd] at h
         simp only [pure, Except.pure, Except.ok.injEq] at h; subst h
-        have hsl : ∀ (es : List (Iv Int)) (es' : List (Iv Int)), deleteIv es x = .ok es' → es'.Sublist es := by
-          intro es
-          induction es with
-          | nil => intro es' h'; simp [deleteIv] at h'
-          | cons a as ih =>
-            intro es' h'
-            simp only [deleteIv] at h'
-            split at h'
-            · simp only [Except.ok.injEq] at h'; subst h'; exact List.sublist_cons_self _ _
-            · cases hr : deleteIv as x with
-              | error e => rw [hr] at h'; simp [Except.map] at h'
-              | ok r =>
-                rw [hr] at h'; simp only [Except.map, Except.ok.injEq] at h'; subst h'
-                exact (ih r hr).cons_cons a
-        have hs := hsl t.es es' hd
+        have hs := deleteIv_sublist t.es x es' hd
         exact ⟨fun y hy => hwf.pos y (hs.subset hy), hwf.disj.sublist hs,
           fun y hy => hwf.inLo y (hs.subset hy), fun y hy => hwf.inHi y (hs.subset hy),
           fun y hy => hwf.stripped y (hs.subset hy), hwf.span⟩
